@@ -8,13 +8,15 @@ EXTENDS AdminOps, Json, TLC
 CONSTANTS MaxCmds, MaxItems,
           SetupMode,    \* "empty": start from the empty history; "typical": one well-formed command first;
                         \* "chdel": a two-destination consistentHashing route of which one destination was deleted
-          CmdMode       \* "all" | "typical" | "api" (deletes) | "none"
+          CmdMode       \* "all" | "typical" | "api" (deletes) | "mods" (modify/delete/view) | "none"
 
 VARIABLES cmds, items, base
 gvars == <<cmds, items, base>>
 
 Pool == CASE CmdMode = "all" -> Commands [] CmdMode = "typical" -> Typical
-          [] CmdMode = "api" -> ApiCmds \cup DelRouteCmds [] OTHER -> {}
+          [] CmdMode = "api" -> ApiCmds \cup DelRouteCmds
+          [] CmdMode = "mods" -> ModDestCmds \cup ModRouteCmds \cup DelRouteCmds \cup ApiCmds \cup ViewCmds
+          [] OTHER -> {}
 
 GInit == /\ items = <<>>
          /\ \/ SetupMode = "empty" /\ cmds = <<>> /\ base = 0
